@@ -5,6 +5,9 @@ ROOT = os.path.dirname(os.path.abspath(__file__))
 sys.path.insert(0, ROOT)
 ALL = [f"C{n:02d}" for n in range(1, 21)]
 have = sorted(f[:-3].upper() for f in os.listdir(os.path.join(ROOT, "checklib")) if re.match(r"c\d\d\.py$", f))
+# only properties the coordinator has validated (one id per line in claimed.txt) are claimed
+claimed = set(open(os.path.join(ROOT, "claimed.txt")).read().split())
+have = [p for p in have if p in claimed]
 checks = []
 for p in have:
     c = importlib.import_module("checklib." + p.lower()).CONFIG
